@@ -282,7 +282,14 @@ def norm_stmts(fn: ast.FunctionDef) -> List[str]:
                 out.append(t)
             elif isinstance(st, ast.For):
                 out.append(f"for {ast.unparse(st.target)} in {ast.unparse(st.iter)} {{ " + "; ".join(rend(st.body)) + " }")
-            elif isinstance(st, (ast.Try, ast.While, ast.With)):
+            elif isinstance(st, ast.Try):
+                t = "try { " + "; ".join(rend(st.body)) + " }"
+                for h in st.handlers:
+                    t += f" except {ast.unparse(h.type) if h.type else ''} {{ " + "; ".join(rend(h.body)) + " }"
+                if st.orelse or st.finalbody:
+                    raise Unrecognised(f"{fn.name}: try with else/finally")
+                out.append(t)
+            elif isinstance(st, (ast.While, ast.With)):
                 raise Unrecognised(f"{fn.name}: compound statement {type(st).__name__}")
             else:
                 out.append(" ".join(ast.unparse(st).split()))
@@ -300,6 +307,9 @@ CLASS_METHODS = [
     (SW, "IOSoftware", ["add_connection", "terminate_connection", "send", "receive"]),
     (HOST, "HostNode", ["receive_frame"]),
     ("simulator/network/hardware/nodes/network/router.py", "Router", ["check_send_frame_to_session_manager"]),
+    ("simulator/system/services/web_server/web_server.py", "WebServer",
+     ["receive", "_process_http_request", "_handle_get_request", "_establish_db_connection"]),
+    ("simulator/system/applications/web_browser.py", "WebBrowser", ["receive", "get_webpage"]),
 ]
 
 
@@ -312,6 +322,26 @@ def connection_overrides() -> List[str]:
                 for st in n.body:
                     if isinstance(st, ast.FunctionDef) and st.name in ("add_connection", "terminate_connection", "clear_connections", "connections"):
                         out.append(f"{n.name}.{st.name}")
+    return out
+
+
+BOT_METHODS = [
+    ("simulator/system/applications/red_applications/dos_bot.py", "DoSBot",
+     ["_application_loop", "_perform_port_scan", "_perform_dos", "run", "apply_timestep"]),
+    ("simulator/system/applications/red_applications/data_manipulation_bot.py", "DataManipulationBot",
+     ["_application_loop", "_logon", "_perform_port_scan", "_perform_data_manipulation", "_establish_db_connection", "attack", "run",
+      "apply_timestep"]),
+    ("simulator/system/applications/red_applications/ransomware_script.py", "RansomwareScript",
+     ["_application_loop", "_perform_ransomware_encrypt", "_establish_db_connection", "attack", "run"]),
+]
+
+
+def int_enum(rel: str, name: str) -> List[Tuple[str, int]]:
+    cls = class_def(parse(rel), name)
+    out = [(st.targets[0].id, st.value.value) for st in cls.body
+           if isinstance(st, ast.Assign) and isinstance(st.value, ast.Constant) and isinstance(st.value.value, int)]
+    if not out:
+        raise Unrecognised(f"enum {name} has no int members")
     return out
 
 
@@ -338,7 +368,24 @@ def emit() -> str:
             rows.append(f"({lean_str(cls + '.' + m)}, [" + ", ".join(lean_str(x) for x in norm_stmts(find_method(c, m))) + "])")
     L.append("def methodBodies : List (String × List String) := [\n  " + ",\n  ".join(rows) + "]")
     L.append("")
+    L.append("/-- normalised bodies of the red applications' attack loops -/")
+    rows = []
+    for rel, cls, meths in BOT_METHODS:
+        c = class_def(parse(rel), cls)
+        for m in meths:
+            rows.append(f"({lean_str(cls + '.' + m)}, [" + ", ".join(lean_str(x) for x in norm_stmts(find_method(c, m))) + "])")
+    L.append("def botBodies : List (String × List String) := [\n  " + ",\n  ".join(rows) + "]")
+    for nm, rel, cls in (("dosStages", BOT_METHODS[0][0], "DoSAttackStage"), ("dmStages", BOT_METHODS[1][0], "DataManipulationAttackStage")):
+        L.append(f"def {nm} : List (String × Nat) := [" + ", ".join(f'("{k}", {v})' for k, v in int_enum(rel, cls)) + "]")
+    L.append("")
     ports = port_lookup()
+    # HTTP status codes the web model uses
+    http = class_def(parse("simulator/network/protocols/http.py"), "HttpStatusCode")
+    codes = {st.targets[0].id: st.value.value for st in http.body
+             if isinstance(st, ast.Assign) and isinstance(st.value, ast.Constant) and isinstance(st.value.value, int)}
+    L.append("/-- `HttpStatusCode` members and values -/")
+    L.append("def httpStatusCodes : List (String × Nat) := [" + ", ".join(f'("{k}", {v})' for k, v in codes.items()) + "]")
+    L.append(f"def portHTTP : Nat := {ports['HTTP']}")
     L.append(f"def portDNS : Nat := {ports['DNS']}")
     L.append(f"def portNTP : Nat := {ports['NTP']}")
     io = class_def(parse(SW), "IOSoftware")
